@@ -42,7 +42,7 @@ impl Drop for Busy {
 }
 
 fn access(addr: usize, write: bool, what: &str) {
-    if addr == 0 {
+    if addr == 0 || !crate::ctl::tracking() {
         return;
     }
     let _b = Busy::enter();
@@ -132,6 +132,15 @@ pub fn wr<T: ?Sized>(p: *const T) {
 pub fn publish<T>(sig: *const T) {
     let _b = Busy::enter();
     let start = sig as usize;
+    with_thread(|e, i| {
+        e.stamp += 1;
+        let s = e.stamp;
+        let name = e.threads[i].1.name;
+        e.publish_log.push((name, s));
+    });
+    if !crate::ctl::tracking() {
+        return;
+    }
     with(|e| {
         e.counters.publishes += 1;
         // a new life at this address
@@ -154,6 +163,9 @@ pub fn publish<T>(sig: *const T) {
 /// The owner of the waiter at `sig` is about to give its memory up.
 #[inline(never)]
 pub fn retire<T>(sig: *const T) {
+    if !crate::ctl::tracking() {
+        return;
+    }
     let start = sig as usize;
     let addrs = {
         let _b = Busy::enter();
@@ -183,10 +195,13 @@ pub fn retire<T>(sig: *const T) {
 }
 
 /// Guard of a peer's work on the waiter at `this`.
-pub struct PeerGuard(());
+pub struct PeerGuard(bool);
 
 #[inline(never)]
 pub fn peer_enter<T>(this: *const T) -> PeerGuard {
+    if !crate::ctl::tracking() {
+        return PeerGuard(false);
+    }
     let start = this as usize;
     let dead: Option<String> = {
         let _b = Busy::enter();
@@ -209,11 +224,14 @@ pub fn peer_enter<T>(this: *const T) -> PeerGuard {
     if let Some(m) = dead {
         violation("use-after-return", &m);
     }
-    PeerGuard(())
+    PeerGuard(true)
 }
 
 impl Drop for PeerGuard {
     fn drop(&mut self) {
+        if !self.0 || std::thread::panicking() {
+            return;
+        }
         let _b = Busy::enter();
         with_thread(|e, i| {
             e.threads[i].1.peer.pop();
@@ -223,6 +241,9 @@ impl Drop for PeerGuard {
 
 /// An atomic or a cell at `addr` is about to be accessed by the calling thread.
 pub(crate) fn shim_access(addr: usize) {
+    if !crate::ctl::tracking() {
+        return;
+    }
     let dead: Option<String> = {
         let _b = Busy::enter();
         with_thread(|e, i| {
